@@ -884,6 +884,7 @@ main(int argc, char **argv)
     CONF.wip = mc_arg(argc, argv, "--wip", NULL);
     CONF.pip = mc_arg(argc, argv, "--pip", NULL);
     CONF.frate = atoi(mc_arg(argc, argv, "--frate", "0"));
+    DC_ADDWORDS = atoi(mc_arg(argc, argv, "--addwords", "0"));
     {
         static char cn[160];
         snprintf(cn, sizeof cn, "%s/filler%d/alt%d/lw%s/wip%s/pip%s%s", CONFNAME, CONF.usefiller, CONF.usealt, CONF.lw ? CONF.lw : "-",
